@@ -75,7 +75,7 @@ def sample_census(job, npaths=80):
 
 
 def run_contexts(report, alpha, contexts, max_holes, path_fn, min_holes=0, sym_coords=False, file_tags=False,
-                 census=True, job_kw=None, parallel_from=3):
+                 census=True, job_kw=None, parallel_from=3, pat_parallel_from=4):
     """Explore every context with 0..max_holes(ctx) holes.  path_fn(Lex, tpl) runs
     one path and returns a record.  Returns {sig: [violation dicts]}."""
     candidates = {}
@@ -99,8 +99,8 @@ def run_contexts(report, alpha, contexts, max_holes, path_fn, min_holes=0, sym_c
             if is_pat:
                 nh = sum(1 for f in tpl.fixed if not f)
                 first = tpl.fixed.index(False) if nh else 0
-                job = E.Job(ctx.name, make_engine, once, split=("input", first + 2) if nh >= 4 else None, **(job_kw or {}))
-                res = E.run_job(job, workers=None if nh >= 4 else 1)
+                job = E.Job(ctx.name, make_engine, once, split=("input", first + 2) if nh >= pat_parallel_from else None, **(job_kw or {}))
+                res = E.run_job(job, workers=None if nh >= pat_parallel_from else 1)
                 report.add_run(job.name, res, describe=tpl.describe())
                 for v in res.violations:
                     candidates.setdefault(v["sig"], []).append(v)
